@@ -43,7 +43,8 @@ class Ctx:
         return min(thorough, quick * scale)
 
     def run(self, cases, layers=("impl", "spec")):
-        res = execute(cases, self.hbin, layers=layers)
+        # thorough tier: single calls of up to 65 537 blocks go through the list-based memory-level model; give a shard an hour
+        res = execute(cases, self.hbin, layers=layers, timeout=(3600 if self.thorough else 300))
         self.evaluations += len(cases)
         for c in cases:
             self.traces += 1
